@@ -342,8 +342,8 @@ def cells(tier):
     for ft in ("INT", "SEQNUM", "NUMINGROUP", "DAYOFMONTH"):
         out.append(Cell(f"short/{ft}", (lambda I, ft=ft: h_short(I, ft, L)), dict(datatype=ft, value=f"every string of 1..{L} chars", alphabet=ab),
                         goals=["accepted", "rejected"], budget_s=2400))
-        out.append(Cell(f"digits/{ft}", (lambda I, ft=ft: h_short(I, ft, L + 1, NUM_AB)),
-                        dict(datatype=ft, value=f"every string of 1..{L + 1} chars", alphabet=NUM_AB_TXT), goals=["accepted", "rejected"], budget_s=2400))
+        out.append(Cell(f"digits/{ft}", (lambda I, ft=ft: h_short(I, ft, 4, NUM_AB)),
+                        dict(datatype=ft, value="every string of 1..4 chars", alphabet=NUM_AB_TXT), goals=["accepted", "rejected"], budget_s=2400))
     FL = 2 if quick else 3
     for ft in ("FLOAT", "QTY", "PRICE", "PRICEOFFSET", "AMT", "PERCENTAGE"):
         for n in range(1, FL + 1):
